@@ -24,7 +24,7 @@ def run(ctx):
             c = br.Case()
             c.bsize = rng.choice([7, 4096, 1 << 20]); c.no_progress = rng.random() < 0.2
             nf = rng.choice([1, 2, 3])
-            c.files = [(f'f{j}', br.gen_data(rng, rng.choice([0, 1, 50, 5000, 3 * c.bsize + 1 if c.bsize > 7 else 40]), False)) for j in range(nf)]
+            c.files = [(f'f{j}', br.gen_data(rng, rng.choice([0, 1, 50, 5000, 8192, 65536, 3 * c.bsize + 1 if c.bsize > 7 else 40, 2 * c.bsize if c.bsize >= 4096 else 4096]), False)) for j in range(nf)]
             c.driver = ['parfile', 'parblock'][i % 2]; c.workers = rng.choice([1, 2, 4]); c.prior = rng.choice(['absent', 'longer'])
             c.reflink = ['never', 'auto', 'always'][(i // 2) % 3]
             c.extra, c.tag = [], 'gen'
@@ -51,8 +51,9 @@ def run(ctx):
             clones = [e for e in r.trace if e['sys'] == 'ficlone']
             bad = None
             # ---- the property's oracle, on the implementation
-            if c.reflink == 'never' and clones:
-                bad = 'reflink=never but a clone request was issued'
+            ranged = [e for e in r.trace if e['sys'] == 'ficlonerange']
+            if c.reflink == 'never' and (clones or ranged):
+                bad = f'reflink=never but a clone request was issued ({len(clones)} FICLONE, {len(ranged)} FICLONERANGE/FIDEDUPERANGE)'
             if c.reflink == 'always':
                 if r.cls == '0':
                     for src, dst, data in pairs:
